@@ -595,6 +595,11 @@ pub fn emit_machine(a: &Args, out: &mut Out) {
     if kind == "strictpairs" { crate::scen2::gen_strict_pairs(a, out, 1, a.get_u64("n", if a.thorough() { 400 } else { 40 }), false); return; }
     if kind == "strictfull" { crate::scen2::gen_strict_pairs(a, out, 1, a.get_u64("n", if a.thorough() { 200 } else { 20 }), true); return; }
     if kind == "run" { crate::scen2::gen_run(a, out, 1, a.get_u64("n", if a.thorough() { 300 } else { 30 }), a.get_u64("np", if a.thorough() { 150 } else { 15 })); return; }
+    if kind == "transparent" { crate::scen3::gen_transparent(a, out); return; }
+    if kind == "traps" { crate::scen3::gen_traps(a, out); return; }
+    if kind == "trapmode" { crate::scen3::gen_trapmode(a, out); return; }
+    if kind == "locks" { crate::scen3::gen_locks(a, out); return; }
+    if kind == "devices" { crate::scen3::gen_devices(a, out); return; }
     if kind == "edge" { gen_edge(a, out, 1, a.get_u64("stride", if a.thorough() { 1 } else { 3 }) as u16); return; }
     let scale = if a.thorough() { 12 } else { 1 };
     let n = |k: &str, d: u64| a.get_u64(k, d * scale);
